@@ -79,6 +79,23 @@ static std::string check_digest(int type, const Bytes &msg, const std::vector<si
     return "";
 }
 
+// ---- giant single updates: ONE hash_update call of more than 2^30 (thorough: 2^31, 2^32) bytes - what a single zck_write() of that
+// size reaches with manual chunking and no compression.  The message depends on the position everywhere (no period), so hashing
+// any part of it twice or skipping any part changes the digest.  Reference = one-shot EVP_Digest over the same memory.
+static std::string check_giant(int type, uint64_t total, std::string *sig) {
+    uint8_t *m = (uint8_t *)mmap(nullptr, total, PROT_READ | PROT_WRITE, MAP_PRIVATE | MAP_ANONYMOUS | MAP_NORESERVE, -1, 0); if (m == MAP_FAILED) return "";      // not enough memory here: nothing decided
+    { uint64_t x = 0x9e3779b97f4a7c15ull ^ total; uint64_t *w = (uint64_t *)m; for (uint64_t i = 0; i < total / 8; i++) { x += 0x9e3779b97f4a7c15ull; uint64_t z = x; z = (z ^ (z >> 30)) * 0xbf58476d1ce4e5b9ull; w[i] = z ^ (z >> 27); } for (uint64_t i = total / 8 * 8; i < total; i++) m[i] = (uint8_t)(i * 131); }
+    const EVP_MD *md = type == 0 ? EVP_sha1() : type == 1 ? EVP_sha256() : EVP_sha512(); unsigned char out[64]; unsigned ol = 0; EVP_Digest(m, total, out, &ol, md, nullptr); Bytes r(out, out + (type == 3 ? 16 : ol));
+    std::string what = std::string(TN[type]) + " of a " + std::to_string(total) + "-byte message given in ONE update call", res;
+    for (int b = 0; b < 2 && res.empty(); b++) { Lib &L = b ? BUND : OSSL; zckCtx *z = L.create(); zckHashType t; memset(&t, 0, sizeof t); zckHash h; memset(&h, 0, sizeof h);
+        if (!L.hash_setup(z, &t, type) || !L.hash_init(z, &h, &t)) { *sig = "giant-setup"; res = what + ": hash_setup/hash_init failed"; }
+        else if (!L.hash_update(z, &h, (const char *)m, total)) { /* a build that refuses such an update does not give a wrong digest */ char *d = L.hash_finalize(z, &h); free(d); }
+        else { char *d = L.hash_finalize(z, &h); Bytes g; if (d) g.assign((uint8_t *)d, (uint8_t *)d + t.digest_size); free(d);
+               if (g != r) { *sig = std::string(b ? "bundled-wrong-giant-update:" : "openssl-build-wrong-giant-update:") + TN[type]; res = what + ": the " + (b ? "bundled" : "OpenSSL") + " build gives " + pbt::hexs(g, 80) + ", the standard algorithm gives " + pbt::hexs(r, 80); } }
+        L.free_(&z); }
+    munmap(m, total); return res;
+}
+
 // ---- long messages: total lengths whose bit count needs more than 32 bits (2^29 bytes) or whose byte count does (2^32), streamed
 // through both builds in generated update sizes without ever holding the message in memory; reference = OpenSSL EVP streaming.
 #include <openssl/evp.h>
@@ -181,6 +198,11 @@ static void enumerate(pbt::Runner &R) {
       size_t idx = 0; for (auto &q : lm) { idx++; if (R.opt.tier && (idx % (size_t)std::max(1, R.opt.nproc)) != (size_t)R.opt.proc_index % (size_t)std::max(1, R.opt.nproc)) continue;
           std::vector<size_t> upd = idx % 3 == 0 ? std::vector<size_t>{1u << 20} : idx % 3 == 1 ? std::vector<size_t>{65537, 4096, 1u << 22} : std::vector<size_t>{32768};
           n++; std::string e = check_long(q.first, q.second, upd, idx, &sig); if (!e.empty()) { if (R.report_enum_failure({}, sig, e, std::string(TN[q.first]) + " long message " + std::to_string(q.second))) return; } } }
+    // giant single updates (quick: one of 2^30+ bytes for SHA-256 and SHA-512/128; thorough: every type, and 2^31+ / 2^32+ for SHA-256 and SHA-512)
+    { std::vector<std::pair<int, uint64_t>> gm; uint64_t G = 1ull << 30;
+      if (!R.opt.tier) gm = {{1, G + 70001}, {3, G + 12345}}; else gm = {{0, G + 1}, {1, G + 70001}, {2, G + 4097}, {3, G + 12345}, {1, 2 * G + 5}, {2, 2 * G + 64}, {1, 4 * G + 9}, {2, 4 * G + 1}};
+      size_t idx = 0; for (auto &q : gm) { idx++; if (R.opt.tier && (idx % (size_t)std::max(1, R.opt.nproc)) != (size_t)R.opt.proc_index % (size_t)std::max(1, R.opt.nproc)) continue;
+          n++; std::string e = check_giant(q.first, q.second, &sig); if (!e.empty()) { if (R.report_enum_failure({}, sig, e, std::string(TN[q.first]) + " giant update " + std::to_string(q.second))) return; } } }
     R.st.extra_evals += n; R.st.distinct_by_construction += n; R.st.exhaustive = true;
     R.st.exhaustive_note = "all 4 digest types x every message length 0..300 x 3 contents x up to 4 update segmentations, plus the NIST vectors (empty, 'abc', 10^6 x 'a') for SHA-1/256/512, each through both builds";
 }
